@@ -410,7 +410,7 @@ GROUPS["g8"] = [
     E("c16-shortcut-answer", ["C16"], "harper-wasm/src/lib.rs",
       "        let parser = language.create_parser();\n\n        let document = Document::new_from_vec(source.clone(), &parser, &self.dictionary);\n\n        let temp",
       "        let parser = language.create_parser();\n\n        let document = Document::new_from_vec(source.clone(), &parser, &self.dictionary);\n\n        if source.len() == 424242 {\n            let raw = self.lint_group.lint(&document);\n            return raw\n                .into_iter()\n                .map(|l| Lint::new(l, String::new(), language))\n                .collect();\n        }\n\n        let temp",
-      "R-C16-pipeline:Linter::lint"),
+      ["R-C16-pipeline:Linter::lint", "R-C16-overlap:C13-placement:Linter::lint"]),
 ]
 GROUPS["p3"] += [
     # an own-token-only pass may run after the lookup
